@@ -51,7 +51,7 @@ func execCase(t *testing.T, rc *RunCase, rngForGen func() chooser, keep bool, de
 			rr.Violations = append(rr.Violations, harnessViolation("bubble-end", leak))
 		}
 	case rc.C14 != nil:
-		cs := buildC14Scenario(rc.C14)
+		cs := buildC14Scenario(rc.C14, rc.C14Real)
 		var out *UCIOutcome
 		leak := bubble(t, func() { out = RunUCIScenario(cs.UCI, nil, true) })
 		if out == nil {
